@@ -32,7 +32,10 @@ def rt_check(chk, rule, row, summ, site, htu):
 def check_align(chk, it, tabs, rows):
     for row in rows:
         nm = row['name']
-        mt = mr.extract_mem(it, row, tabs, [(0, 0)])
+        try:
+            mt = mr.extract_mem(it, row, tabs, [(0, 0)])
+        except emit.ScriptMismatch:
+            continue        # reported by the access-row rule (memarg decoders)
         want = oracle.natural_align(row['sem']['access'])
         chk.expect(mt.align_consts == {want}, 'R16.1', nm + ':expected-align',
                    '%s accepts alignment exponent %s, the threads proposal requires exactly the natural alignment %d '
